@@ -21,7 +21,7 @@ PROP = "C35"
 READY = True
 DRIVER = "dm_hlg"
 LEAN_MODULES = ["DaskModel.Props.C35"]
-CASE_TIMEOUT_S = 20
+CASE_TIMEOUT_S = 60   # the first case of a run also pays the import of dask.array (slow on a loaded machine)
 LEVEL_TEXT = ("Lean 4 theorems over a transliteration of map_blocks' index bookkeeping and block_info computation: "
               "`block_info_true` (the reported array-location of block b along an axis is [sum of the chunks before b, "
               "+ chunk b), i.e. exactly the positions `locate` maps to block b, for every chunking), "
@@ -467,6 +467,76 @@ def case_gufunc(ctx, inp):
     ctx.branch("gufunc")
 
 
+def case_gufunc_axes(ctx, inp):
+    """apply_gufunc with axis= / axes= / keepdims= against the moveaxis reference built on numpy.vectorize"""
+    import numpy as np
+    import dask.array as da
+    sig = inp["sig"]
+    fn = GUFUNCS[sig]
+    arrs = _mk_arrays([dict(a, dtype="f8") for a in inp["arrays"]])
+    xs = [x for x, _ in arrs]
+    ds = [d for _, d in arrs]
+    vec = np.vectorize(fn, signature=sig)
+    kw = {}
+    if inp["mode"] == "axis":
+        k = inp["axis"]
+        ref = vec(*[np.moveaxis(x, k, -1) for x in xs])
+        kw["axis"] = k
+        if inp.get("keepdims"):
+            ref = np.expand_dims(ref, k)
+            kw["keepdims"] = True
+    else:
+        in_axes, out_axes = inp["in_axes"], inp["out_axes"]
+        moved = [np.moveaxis(x, list(ax), list(range(-len(ax), 0))) for x, ax in zip(xs, in_axes)]
+        ref = vec(*moved)
+        ref = np.moveaxis(ref, list(range(-len(out_axes), 0)), list(out_axes)) if out_axes else ref
+        kw["axes"] = [tuple(a) for a in in_axes] + [tuple(out_axes)]
+    try:
+        r = da.apply_gufunc(fn, sig, *ds, vectorize=True, output_dtypes="f8", **kw)
+    except Exception as e:
+        ctx.fail("apply_gufunc(axis/axes) raised: " + type(e).__name__ + ": " + str(e)[:160])
+        return
+    got = np.asarray(r.compute(scheduler="sync"))
+    ref = np.asarray(ref)
+    if got.shape != ref.shape or not np.allclose(got, ref):
+        ctx.fail("apply_gufunc(axis/axes) differs from the moveaxis/np.vectorize reference", observed=list(got.shape), expected=list(ref.shape))
+    if tuple(r.shape) != ref.shape:
+        ctx.fail("apply_gufunc(axis/axes): lazy shape differs from the computed shape", observed=list(r.shape), expected=list(ref.shape))
+    for idx in list(itertools.product(*[range(n) for n in r.numblocks]))[:6]:
+        b = np.asarray(r.blocks[idx].compute(scheduler="sync")) if r.ndim else got
+        if b.shape != tuple(c[i] for c, i in zip(r.chunks, idx)):
+            ctx.fail("gufunc(axis/axes) block shape differs from .chunks", observed=[list(idx), list(b.shape)])
+    ctx.branch("gufunc-" + inp["mode"] + ("-keepdims" if inp.get("keepdims") else ""))
+
+
+def gen_gufunc_axes(rng):
+    mode = rng.choice(["axis", "axis", "axes"])
+    if mode == "axis":
+        sig = rng.choice(["(i)->()", "(i),(i)->()"])
+        nd = rng.randint(1, 3)
+        shape = [rng.randint(1, 4) for _ in range(nd)]
+        k = rng.randrange(-nd, nd)
+        ch = U.rand_chunks(rng, shape)
+        ch[k % nd] = [shape[k % nd]]            # the core axis is a single chunk
+        nargs = 2 if sig.count("(i)") == 2 and sig.startswith("(i),(i)") else 1
+        return {"sig": sig, "mode": "axis", "axis": k, "keepdims": rng.random() < 0.4,
+                "arrays": [{"shape": shape, "chunks": ch} for _ in range(nargs)]}
+    sig = rng.choice(["(i)->(i)", "(i,j)->(i)"])
+    nd = rng.randint(2, 3)
+    shape = [rng.randint(1, 4) for _ in range(nd)]
+    ncore = 1 if sig == "(i)->(i)" else 2
+    in_ax = rng.sample(range(nd), ncore)
+    ch = U.rand_chunks(rng, shape)
+    for a in in_ax:
+        ch[a] = [shape[a]]
+    nd_out = nd - ncore + 1
+    out_ax = [rng.randrange(nd_out)]
+    if rng.random() < 0.5:
+        in_ax = [a - nd for a in in_ax]
+        out_ax = [out_ax[0] - nd_out]
+    return {"sig": sig, "mode": "axes", "in_axes": [in_ax], "out_axes": out_ax, "arrays": [{"shape": shape, "chunks": ch}]}
+
+
 def gen_gufunc(rng):
     sig = rng.choice(list(GUFUNCS))
     inargs = re.findall(r"\(([^)]*)\)", sig.split("->")[0])
@@ -534,7 +604,7 @@ def case_prog(ctx, inp):
 
 
 CASES = {"blockinfo": case_blockinfo, "mapblocks": case_mapblocks, "newaxis": case_newaxis, "adjust": case_adjust,
-         "gufunc": case_gufunc, "prog": case_prog}
+         "gufunc": case_gufunc, "gufunc_axes": case_gufunc_axes, "prog": case_prog}
 
 
 def gen_mapblocks(rng):
@@ -587,6 +657,8 @@ def generate(ctx):
                          "how": rng.choice(["callable", "tuple", "int", "badtuple"])}
     for _ in range(ctx.n(90, 900)):
         yield "gufunc", gen_gufunc(rng)
+    for _ in range(ctx.n(50, 500)):
+        yield "gufunc_axes", gen_gufunc_axes(rng)
     G = U.ProgGen(rng, PROG_W, leaf_dtypes=("i8", "f8"), maxdim=4, maxnd=3)
     for _ in range(ctx.n(60, 600)):
         p, _x = G.gen(rng.randint(1, 3))
